@@ -235,4 +235,498 @@ theorem past_eq {k : Option Nat} {m : Nat} (hk : k = some m) (c : Coro α) {i : 
   undelivered_eq k c i fun m' hk' => by
     rw [hk] at hk'; cases hk'; exact Or.inl h
 
+/-! ### well-formed coroutines end cancelled exactly when the cancellation is delivered -/
+
+/-- cannot block and cannot raise by itself: only actions, awaits, gathers, `finally`, `with` -/
+def total : Coro α → Bool
+  | .skip | .act _ | .await _ | .gather _ => true
+  | .park _ | .raise _ | .ret | .tryExcept .. | .loop .. => false
+  | .seq p q => total p && total q
+  | .tryFinally b f => total b && total f
+  | .withCtx en ex fi b => total en && total ex && total fi && total b
+
+/-- no `except`/`raise`/`return`, and every cleanup block (`finally`, context-manager exit) is total -/
+def wf : Coro α → Bool
+  | .skip | .act _ | .await _ | .gather _ | .park _ => true
+  | .raise _ | .ret | .tryExcept .. => false
+  | .seq p q => wf p && wf q
+  | .tryFinally b f => wf b && total f
+  | .withCtx en ex fi b => wf en && total ex && total fi && wf b
+  | .loop _ b => wf b
+
+theorem total_wf (c : Coro α) (h : total c = true) : wf c = true := by
+  induction c with
+  | skip | act | await | gather | park | raise | ret | tryExcept | loop => simp_all [total, wf]
+  | seq p q ihp ihq => simp_all [total, wf]
+  | tryFinally b f ihb ihf => simp_all [total, wf]
+  | withCtx en ex fi b ihen ihex ihfi ihb => simp_all [total, wf]
+
+/-- what a run of a well-formed coroutine from await index `i` looks like -/
+structure Good (k : Option Nat) (i : Nat) (r : Res α) (tot : Bool) : Prop where
+  mono : i ≤ r.idx
+  tri : r.out = .normal ∨ r.out = .pending ∨ r.out = .raised .cancelled
+  canc : r.out = .raised .cancelled ↔ Delivered k i r.idx
+  tot : tot = true → r.out ≠ .pending
+
+theorem good_awaits (k : Option Nat) (l : List α) (i : Nat) : Good k i (runAwaits k l i) true := by
+  induction l generalizing i with
+  | nil =>
+    simp only [runAwaits]
+    exact ⟨Nat.le_refl _, Or.inl rfl, by simp [not_delivered_self], by simp⟩
+  | cons a l ih =>
+    unfold runAwaits
+    by_cases hk : k = some i
+    · simp only [hk, ↓reduceIte]
+      exact ⟨by simp, Or.inr (Or.inr rfl), by simp [delivered_one], by simp⟩
+    · simp only [hk, ↓reduceIte]
+      have g := ih (i + 1)
+      refine ⟨by have := g.mono; simp only; omega, g.tri, ?_, g.tot⟩
+      simp only
+      rw [g.canc, delivered_split (Nat.le_succ i) g.mono, delivered_one]
+      simp [hk]
+
+theorem good_andThen {k : Option Nat} {i : Nat} {r : Res α} {f : Nat → Res α} {t1 t2 : Bool}
+    (h : Good k i r t1) (hf : ∀ j, Good k j (f j) t2) : Good k i (r.andThen f) (t1 && t2) := by
+  unfold Res.andThen
+  by_cases hn : r.out = .normal
+  · simp only [hn, ↓reduceIte]
+    have g := hf r.idx
+    have hnd : ¬ Delivered k i r.idx := fun hd => by
+      have := h.canc.2 hd; rw [hn] at this; cases this
+    refine ⟨Nat.le_trans h.mono g.mono, g.tri, ?_, ?_⟩
+    · simp only
+      rw [g.canc, delivered_split h.mono g.mono]; simp [hnd]
+    · intro ht; simp only [Bool.and_eq_true] at ht; exact g.tot ht.2
+  · simp only [hn, ↓reduceIte]
+    refine ⟨h.mono, h.tri, h.canc, ?_⟩
+    intro ht; simp only [Bool.and_eq_true] at ht; exact h.tot ht.1
+
+/-- `finally` / exit blocks are total -/
+theorem good_finallyDo {k : Option Nat} {i : Nat} {r : Res α} {f : Nat → Res α} {t1 : Bool}
+    (h : Good k i r t1) (hf : ∀ j, Good k j (f j) true) : Good k i (r.finallyDo f) t1 := by
+  unfold Res.finallyDo
+  by_cases hp : r.out = .pending
+  · simp only [hp, ↓reduceIte]
+    exact ⟨h.mono, h.tri, h.canc, h.tot⟩
+  · simp only [hp, ↓reduceIte]
+    have g := hf r.idx
+    have gp := g.tot rfl
+    refine ⟨Nat.le_trans h.mono g.mono, ?_, ?_, ?_⟩
+    · simp only
+      rcases g.tri with a | a | a
+      · simp only [a, ↓reduceIte]; exact h.tri
+      · exact absurd a gp
+      · simp [a]
+    · simp only
+      rw [delivered_split h.mono g.mono, ← h.canc, ← g.canc]
+      rcases g.tri with a | a | a
+      · simp [a]
+      · exact absurd a gp
+      · simp [a]
+    · intro _
+      simp only
+      rcases g.tri with a | a | a
+      · simp only [a, ↓reduceIte]; exact hp
+      · exact absurd a gp
+      · simp [a]
+
+theorem good_exitOk {k : Option Nat} {i : Nat} {r : Res α} {f : Nat → Res α} {t1 : Bool}
+    (h : Good k i r t1) (hf : ∀ j, Good k j (f j) true) : Good k i (r.exitOk f) t1 := by
+  unfold Res.exitOk
+  by_cases hn : r.out = .normal
+  · simp only [hn, true_or, ↓reduceIte]
+    have g := hf r.idx
+    have gp := g.tot rfl
+    have hnd : ¬ Delivered k i r.idx := fun hd => by
+      have := h.canc.2 hd; rw [hn] at this; cases this
+    refine ⟨Nat.le_trans h.mono g.mono, ?_, ?_, ?_⟩
+    · simp only
+      rcases g.tri with a | a | a
+      · simp [a]
+      · exact absurd a gp
+      · simp [a]
+    · simp only
+      rw [delivered_split h.mono g.mono, ← g.canc]
+      rcases g.tri with a | a | a
+      · simp [a, hnd]
+      · exact absurd a gp
+      · simp [a]
+    · intro _
+      simp only
+      rcases g.tri with a | a | a
+      · simp [a]
+      · exact absurd a gp
+      · simp [a]
+  · have hr : ¬ (r.out = .normal ∨ r.out = .returned) := by
+      rintro (a | a)
+      · exact hn a
+      · rcases h.tri with b | b | b <;> rw [a] at b <;> cases b
+    simp only [hr, ↓reduceIte]
+    exact ⟨h.mono, h.tri, h.canc, h.tot⟩
+
+theorem good_loop {k : Option Nat} {f : Nat → Res α} {t : Bool} (hf : ∀ j, Good k j (f j) t) (n i : Nat) :
+    Good k i (runLoop f n i) false := by
+  induction n generalizing i with
+  | zero =>
+    simp only [runLoop]
+    exact ⟨Nat.le_refl _, Or.inr (Or.inl rfl), by simp [not_delivered_self], by simp⟩
+  | succ n ih =>
+    unfold runLoop
+    have := good_andThen (hf i) ih
+    simpa using this
+
+theorem good_weaken {k : Option Nat} {i : Nat} {r : Res α} {t : Bool} (h : Good k i r t) : Good k i r false :=
+  ⟨h.mono, h.tri, h.canc, by simp⟩
+
+/-- the shape of every run of a well-formed coroutine -/
+theorem good_run (k : Option Nat) (c : Coro α) (hw : wf c = true) (i : Nat) : Good k i (run k c i) (total c) := by
+  induction c generalizing i with
+  | skip =>
+    simp only [run, total]
+    exact ⟨Nat.le_refl _, Or.inl rfl, by simp [not_delivered_self], by simp⟩
+  | act a =>
+    simp only [run, total]
+    exact ⟨Nat.le_refl _, Or.inl rfl, by simp [not_delivered_self], by simp⟩
+  | await a => simp only [run, total]; exact good_awaits k _ i
+  | park a =>
+    simp only [run, total]
+    by_cases hk : k = some i
+    · simp only [hk, ↓reduceIte]
+      exact ⟨by simp, Or.inr (Or.inr rfl), by simp [delivered_one], by simp⟩
+    · simp only [hk, ↓reduceIte]
+      exact ⟨by simp, Or.inr (Or.inl rfl), by simp [delivered_one, hk], by simp⟩
+  | raise e => simp [wf] at hw
+  | ret => simp [wf] at hw
+  | seq p q ihp ihq =>
+    simp only [wf, Bool.and_eq_true] at hw
+    simp only [run, total]
+    exact good_andThen (ihp hw.1 i) (ihq hw.2)
+  | tryFinally b f ihb ihf =>
+    simp only [wf, Bool.and_eq_true] at hw
+    simp only [run, total]
+    have gf : ∀ j, Good k j (run k f j) true := fun j => by
+      have := ihf (total_wf f hw.2) j; rwa [hw.2] at this
+    have := good_finallyDo (ihb hw.1 i) gf
+    rw [hw.2, Bool.and_true]; exact this
+  | tryExcept b c h e => simp [wf] at hw
+  | withCtx en ex fi b ihen ihex ihfi ihb =>
+    simp only [wf, Bool.and_eq_true] at hw
+    obtain ⟨⟨⟨h1, h2⟩, h3⟩, h4⟩ := hw
+    simp only [run, total]
+    have gx : ∀ j, Good k j (run k ex j) true := fun j => by
+      have := ihex (total_wf ex h2) j; rwa [h2] at this
+    have gf : ∀ j, Good k j (run k fi j) true := fun j => by
+      have := ihfi (total_wf fi h3) j; rwa [h3] at this
+    have := good_finallyDo (good_andThen (ihen h1 i) fun j => good_exitOk (ihb h4 j) gx) gf
+    rw [h2, h3]; simpa using this
+  | gather cs => simp only [run, total]; exact good_awaits k _ i
+  | loop n b ih =>
+    simp only [wf] at hw
+    simp only [run, total]
+    exact good_loop (ih hw) n i
+
+/-- **a well-formed coroutine ends with CancelledError exactly when the cancellation index is one of
+the awaits it passes through** (and with nothing else: `good_run.tri`) -/
+theorem cancelled_iff_delivered (k : Option Nat) (c : Coro α) (hw : wf c = true) (i : Nat) :
+    (run k c i).out = .raised .cancelled ↔ ∃ m, k = some m ∧ i ≤ m ∧ m < (run k c i).idx :=
+  (good_run k c hw i).canc
+
+/-- a well-formed coroutine cancelled at any index ends with CancelledError, unless the index is
+never reached — then the run is the uncancelled run -/
+theorem ends_cancelled_or_unreached (k : Option Nat) (c : Coro α) (hw : wf c = true) :
+    (runCancel k c).2 = .raised .cancelled ∨ runCancel k c = runCancel none c := by
+  by_cases hd : Delivered k 0 (run k c 0).idx
+  · exact Or.inl ((good_run k c hw 0).canc.2 hd)
+  · right
+    have : run k c 0 = run none c 0 := by
+      apply undelivered_eq
+      intro m hk
+      by_cases hm : m < (run k c 0).idx
+      · exact absurd ⟨m, hk, Nat.zero_le _, hm⟩ hd
+      · exact Or.inr (by omega)
+    simp [runCancel, this]
+
+theorem uncancelled_out (c : Coro α) (hw : wf c = true) (i : Nat) :
+    (run none c i).out = .normal ∨ (run none c i).out = .pending := by
+  have g := good_run none c hw i
+  rcases g.tri with a | a | a
+  · exact Or.inl a
+  · exact Or.inr a
+  · obtain ⟨m, hk, _⟩ := g.canc.1 a; cases hk
+
+/-- syntactically certain to block when never cancelled -/
+def blocks : Coro α → Bool
+  | .park _ | .loop .. => true
+  | .seq p q => blocks p || blocks q
+  | .tryFinally b _ => blocks b
+  | .withCtx en _ _ b => blocks en || blocks b
+  | _ => false
+
+theorem runLoop_not_normal (f : Nat → Res α) (n i : Nat) : (runLoop f n i).out ≠ .normal := by
+  induction n generalizing i with
+  | zero => simp [runLoop]
+  | succ n ih =>
+    unfold runLoop Res.andThen
+    by_cases h : (f i).out = .normal
+    · simp only [h, ↓reduceIte]; exact ih _
+    · simp only [h, ↓reduceIte]; exact h
+
+theorem blocks_pending (c : Coro α) (hw : wf c = true) (hb : blocks c = true) (i : Nat) :
+    (run none c i).out = .pending := by
+  induction c generalizing i with
+  | skip | act | await | gather | raise | ret | tryExcept => simp [blocks] at hb
+  | park a => simp [run]
+  | seq p q ihp ihq =>
+    simp only [wf, Bool.and_eq_true] at hw
+    simp only [blocks, Bool.or_eq_true] at hb
+    simp only [run, Res.andThen]
+    rcases uncancelled_out p hw.1 i with a | a
+    · simp only [a, ↓reduceIte]
+      rcases hb with hb | hb
+      · have := ihp hw.1 hb i; rw [a] at this; cases this
+      · exact ihq hw.2 hb _
+    · simp [a]
+  | tryFinally b f ihb ihf =>
+    simp only [wf, Bool.and_eq_true] at hw
+    simp only [blocks] at hb
+    simp only [run, Res.finallyDo, ihb hw.1 hb i, ↓reduceIte]
+  | withCtx en ex fi b ihen ihex ihfi ihb =>
+    simp only [wf, Bool.and_eq_true] at hw
+    obtain ⟨⟨⟨h1, h2⟩, h3⟩, h4⟩ := hw
+    simp only [blocks, Bool.or_eq_true] at hb
+    have inner : ((run none en i).andThen fun j => (run none b j).exitOk (run none ex)).out = .pending := by
+      simp only [Res.andThen]
+      rcases uncancelled_out en h1 i with a | a
+      · simp only [a, ↓reduceIte]
+        rcases hb with hb | hb
+        · have := ihen h1 hb i; rw [a] at this; cases this
+        · simp [Res.exitOk, ihb h4 hb _]
+      · simp [a]
+    simp only [run, Res.finallyDo, inner, ↓reduceIte]
+  | loop n b ih =>
+    simp only [wf] at hw
+    have g := good_run none (.loop n b) (by simpa [wf] using hw) i
+    simp only [run] at g ⊢
+    rcases g.tri with a | a | a
+    · exact absurd a (runLoop_not_normal _ n i)
+    · exact a
+    · obtain ⟨m, hk, _⟩ := g.canc.1 a; cases hk
+
+/-! ### every event of a run is an action the coroutine mentions -/
+
+def acts : Coro α → List α
+  | .skip | .raise _ | .ret => []
+  | .act a | .await a | .park a => [a]
+  | .seq p q => acts p ++ acts q
+  | .tryFinally b f => acts b ++ acts f
+  | .tryExcept b _ h e => acts b ++ acts h ++ acts e
+  | .withCtx en ex fi b => acts en ++ acts ex ++ acts fi ++ acts b
+  | .gather cs => cs.flatten
+  | .loop _ b => acts b
+
+theorem runAwaits_sub (k : Option Nat) (l : List α) (i : Nat) : ∀ x ∈ (runAwaits k l i).trace, x ∈ l := by
+  induction l generalizing i with
+  | nil => simp [runAwaits]
+  | cons a l ih =>
+    unfold runAwaits
+    split
+    · simp
+    · intro x hx
+      simp only [List.mem_cons] at hx ⊢
+      rcases hx with rfl | hx
+      · exact Or.inl rfl
+      · exact Or.inr (ih _ x hx)
+
+theorem mem_andThen {r : Res α} {f : Nat → Res α} {x : α} (h : x ∈ (r.andThen f).trace) :
+    x ∈ r.trace ∨ x ∈ (f r.idx).trace := by
+  unfold Res.andThen at h
+  split at h
+  · simpa using h
+  · exact Or.inl h
+
+theorem mem_finallyDo {r : Res α} {f : Nat → Res α} {x : α} (h : x ∈ (r.finallyDo f).trace) :
+    x ∈ r.trace ∨ x ∈ (f r.idx).trace := by
+  unfold Res.finallyDo at h
+  split at h
+  · exact Or.inl h
+  · simpa using h
+
+theorem mem_exitOk {r : Res α} {f : Nat → Res α} {x : α} (h : x ∈ (r.exitOk f).trace) :
+    x ∈ r.trace ∨ x ∈ (f r.idx).trace := by
+  unfold Res.exitOk at h
+  split at h
+  · simpa using h
+  · exact Or.inl h
+
+theorem mem_runLoop {f : Nat → Res α} {x : α} (n i : Nat) (h : x ∈ (runLoop f n i).trace) :
+    ∃ j, x ∈ (f j).trace := by
+  induction n generalizing i with
+  | zero => simp [runLoop] at h
+  | succ n ih =>
+    unfold runLoop at h
+    rcases mem_andThen h with h | h
+    · exact ⟨i, h⟩
+    · exact ih _ h
+
+theorem heads_sub (cs : List (List α)) : ∀ x ∈ heads cs, ∃ c ∈ cs, x ∈ c := by
+  induction cs with
+  | nil => simp [heads]
+  | cons c cs ih =>
+    cases c with
+    | nil =>
+      intro x hx
+      simp only [heads] at hx
+      obtain ⟨c, hc, hx⟩ := ih x hx
+      exact ⟨c, by simp [hc], hx⟩
+    | cons a l =>
+      intro x hx
+      simp only [heads, List.mem_cons] at hx
+      rcases hx with rfl | hx
+      · exact ⟨x :: l, by simp, by simp⟩
+      · obtain ⟨c, hc, hx⟩ := ih x hx
+        exact ⟨c, by simp [hc], hx⟩
+
+theorem tails_sub (cs : List (List α)) : ∀ d ∈ tails cs, ∃ c ∈ cs, ∀ x ∈ d, x ∈ c := by
+  induction cs with
+  | nil => simp [tails]
+  | cons c cs ih =>
+    cases c with
+    | nil =>
+      intro d hd
+      simp only [tails] at hd
+      obtain ⟨c, hc, hx⟩ := ih d hd
+      exact ⟨c, by simp [hc], hx⟩
+    | cons a l =>
+      intro d hd
+      simp only [tails, List.mem_cons] at hd
+      rcases hd with rfl | hd
+      · exact ⟨a :: d, by simp, fun x hx => by simp [hx]⟩
+      · obtain ⟨c, hc, hx⟩ := ih d hd
+        exact ⟨c, by simp [hc], hx⟩
+
+theorem interleaveAux_sub (n : Nat) (cs : List (List α)) : ∀ x ∈ interleaveAux n cs, ∃ c ∈ cs, x ∈ c := by
+  induction n generalizing cs with
+  | zero => simp [interleaveAux]
+  | succ n ih =>
+    intro x hx
+    simp only [interleaveAux, List.mem_append] at hx
+    rcases hx with hx | hx
+    · exact heads_sub cs x hx
+    · obtain ⟨d, hd, hx⟩ := ih (tails cs) x hx
+      obtain ⟨c, hc, hsub⟩ := tails_sub cs d hd
+      exact ⟨c, hc, hsub x hx⟩
+
+/-- every await of a gather belongs to one of its children -/
+theorem interleave_sub (cs : List (List α)) : ∀ x ∈ interleave cs, ∃ c ∈ cs, x ∈ c :=
+  interleaveAux_sub _ cs
+
+theorem trace_sub_acts (k : Option Nat) (c : Coro α) (i : Nat) : ∀ x ∈ (run k c i).trace, x ∈ acts c := by
+  induction c generalizing i with
+  | skip => simp [run]
+  | act a => simp [run, acts]
+  | await a => simp only [run, acts]; exact runAwaits_sub k _ i
+  | park a => simp only [run, acts]; split <;> simp
+  | raise e => simp [run]
+  | ret => simp [run]
+  | seq p q ihp ihq =>
+    intro x hx
+    simp only [run] at hx
+    simp only [acts, List.mem_append]
+    rcases mem_andThen hx with h | h
+    · exact Or.inl (ihp _ x h)
+    · exact Or.inr (ihq _ x h)
+  | tryFinally b f ihb ihf =>
+    intro x hx
+    simp only [run] at hx
+    simp only [acts, List.mem_append]
+    rcases mem_finallyDo hx with h | h
+    · exact Or.inl (ihb _ x h)
+    · exact Or.inr (ihf _ x h)
+  | tryExcept b c h e ihb ihh ihe =>
+    intro x hx
+    simp only [run] at hx
+    simp only [acts, List.mem_append]
+    split at hx
+    · split at hx
+      · simp only [List.mem_append] at hx
+        rcases hx with hx | hx
+        · exact Or.inl (Or.inl (ihb _ x hx))
+        · exact Or.inl (Or.inr (ihh _ x hx))
+      · exact Or.inl (Or.inl (ihb _ x hx))
+    · simp only [List.mem_append] at hx
+      rcases hx with hx | hx
+      · exact Or.inl (Or.inl (ihb _ x hx))
+      · exact Or.inr (ihe _ x hx)
+    · exact Or.inl (Or.inl (ihb _ x hx))
+  | withCtx en ex fi b ihen ihex ihfi ihb =>
+    intro x hx
+    simp only [run] at hx
+    simp only [acts, List.mem_append]
+    rcases mem_finallyDo hx with h | h
+    · rcases mem_andThen h with h | h
+      · exact Or.inl (Or.inl (Or.inl (ihen _ x h)))
+      · rcases mem_exitOk h with h | h
+        · exact Or.inr (ihb _ x h)
+        · exact Or.inl (Or.inl (Or.inr (ihex _ x h)))
+    · exact Or.inl (Or.inr (ihfi _ x h))
+  | gather cs =>
+    intro x hx
+    simp only [run] at hx
+    simp only [acts, List.mem_flatten]
+    exact interleave_sub cs x (runAwaits_sub k _ i x hx)
+  | loop n b ih =>
+    intro x hx
+    simp only [run] at hx
+    obtain ⟨j, hj⟩ := mem_runLoop n i hx
+    exact ih j x hj
+
+theorem runAwaits_none (l : List α) (i : Nat) : runAwaits none l i = ⟨l, .normal, i + l.length⟩ := by
+  induction l generalizing i with
+  | nil => simp [runAwaits]
+  | cons a l ih =>
+    unfold runAwaits
+    simp only [reduceCtorEq, ↓reduceIte, ih, List.length_cons]
+    congr 1; omega
+
+theorem heads_singletons (l : List α) : heads (l.map fun a => [a]) = l := by
+  induction l with
+  | nil => rfl
+  | cons a l ih => simp [heads, ih]
+
+theorem tails_singletons (l : List α) : tails (l.map fun a => [a]) = l.map fun _ => [] := by
+  induction l with
+  | nil => rfl
+  | cons a l ih => simp [tails, ih]
+
+theorem heads_empties (l : List α) : heads (l.map fun _ => ([] : List α)) = [] := by
+  induction l with
+  | nil => rfl
+  | cons a l ih => simpa [heads] using ih
+
+theorem interleaveAux_empties (n : Nat) (l : List α) : interleaveAux n (l.map fun _ => ([] : List α)) = [] := by
+  induction n generalizing l with
+  | zero => rfl
+  | succ n ih =>
+    have h2 : tails (l.map fun _ => ([] : List α)) = (([] : List α).map fun _ => ([] : List α)) := by
+      induction l with
+      | nil => rfl
+      | cons a l ihl => simpa [tails] using ihl
+    simp only [interleaveAux, heads_empties, h2, ih, List.append_nil]
+
+theorem totalLen_singletons (l : List α) : totalLen (l.map fun a => [a]) = l.length := by
+  induction l with
+  | nil => rfl
+  | cons a l ih => simp [totalLen, ih]; omega
+
+/-- a gather of one-await children awaits them in order -/
+theorem interleave_singletons (l : List α) : interleave (l.map fun a => [a]) = l := by
+  unfold interleave
+  rw [totalLen_singletons]
+  cases l with
+  | nil => rfl
+  | cons a l =>
+    simp only [List.length_cons, interleaveAux]
+    rw [heads_singletons, tails_singletons, interleaveAux_empties]
+    simp
+
 end Ebv.C24
